@@ -157,6 +157,14 @@ Theorem soh_bounded_work : forall th progs s sc, R th progs s ->
   (moves glob loc tstep s sc <= mu (total_ins progs) s)%nat.
 Proof. exact bounded_work. Qed.
 
+(* ... and such a schedule exists: from every reachable state some schedule of at most mu(s) steps (every
+   choice is a work-choice: no step of this class depends on the scheduler's choice) ends with every thread
+   finished - in particular every blocked locker gets the mutex and every scan ends *)
+Theorem soh_eventually_finishes : forall th progs s, R th progs s ->
+  exists sc, sched_ok any_choice sc /\ (length sc <= mu (total_ins progs) s)%nat /\
+             all_fin glob loc fin (run glob loc tstep s sc) = true.
+Proof. exact eventually_finishes. Qed.
+
 (* ---------- the sequential map is the specification (soh_seq_refines) ----------
    abs turns the sorted association lists into finite maps Z -> option _.  Each method body, run
    alone (apply_sop / pscan: what one critical section does, by soh_section_refines), is the
@@ -255,6 +263,13 @@ Proof. vm_compute. repeat split; auto. eexists; split; reflexivity. Qed.
 Example ex_open_window :
   let s := runS ex2 [(0, 0); (0, 0)]%nat in
   open_win (pcof (thr s) 0) = Some (WRd, 1%nat) /\ mtx (gl s) = Some 0%nat.
+Proof. vm_compute. auto. Qed.
+
+(* from ex2 (thread 0 inside a scan owning the mutex, thread 1 blocked on the lock) 8 more steps finish both
+   threads, within mu ex2 = 15 *)
+Example ex_finishes_from_blocked :
+  all_fin glob loc fin ex2 = false /\ mu (total_ins [[OS (Add 0 1); OS (Add 1 2); OP (FindPred 2 false)]; [OS (RemName 0)]]) ex2 = 15%nat /\
+  all_fin glob loc fin (runS ex2 (tn 0 4 ++ tn 1 4)) = true.
 Proof. vm_compute. auto. Qed.
 
 (* the first predicate invocation throws: the exception leaves, the mutex is free, the maps are unchanged,
